@@ -11,7 +11,7 @@ CHECKS = {
     "C01": (
         "model_checking",
         "exhaustive small-scope enumeration of abstract pages (traces of a line-event scope machine) replayed against the real compiler",
-        "Every abstract single-item page over 16 kind/priority forms x 4 identity forms x bodies of 1..N words from a 10-word alphabet made of prefix look-alikes x 4 tail shapes, and every ordered pair (quick) / pair and triple (thorough) of a 24-item reduced alphabet in 7 layouts (incl. a page whose body opens with an H2 section) plus a 120-item page whose section with a child is followed by a sibling, is rendered, compiled by walk_zorg_page and compared field by field (kind, priority, body, line, ZID, create and modify date, section path, block, count, order - both of the section tree and of Page.notes) with the notes the abstract page denotes. All traces of the model within the bound are replayed on the implementation, so there is no model/code gap inside the bound.",
+        "Every abstract single-item page over 16 kind/priority forms x 4 identity forms x bodies of 1..N words from a 10-word alphabet made of prefix look-alikes x 5 tail shapes (incl. a blank-only continuation line), every ordered pair of 24 word forms (tags, link kinds, properties, inline properties, quoted / parenthesised words, URL, punctuation) as a body, items with two blanks after the prefix, and every ordered pair (quick) / pair and triple (thorough) of a 24-item reduced alphabet in 7 layouts (incl. a page whose body opens with an H2 section) plus a 120-item page whose section with a child is followed by a sibling, is rendered, compiled by walk_zorg_page and compared field by field (kind, priority, body, line, ZID, create and modify date, section path, block, count, order - both of the section tree and of Page.notes) with the notes the abstract page denotes. All traces of the model within the bound are replayed on the implementation, so there is no model/code gap inside the bound.",
         "Trusts the reference model mc/models/zo_model.py and the vetted alphabets; generated parser as committed; larger pages / other words only by the small-scope hypothesis.",
         "§4 C01",
     ),
@@ -32,14 +32,14 @@ CHECKS = {
     "C04": (
         "exploration",
         "exhaustive small-scope enumeration of abstract queries rendered to text and compiled by the real query compiler, compared structurally with the denoted Query",
-        "All select forms, every single atom (all 64 priority-range spellings, every operator/negation/quote/case form), every expression shape up to 3 leaves and paren depth 2, every ^/$ date form (short incl. two-digit years on both sides of strptime's %y pivot, d/m/y relative, negative, ranges) on 7 frozen calendar-edge days resolved by hand-written month arithmetic, every relative date spec compiled on two different frozen days in ONE process (nothing resolved against an earlier today may be carried over), all order/group lists up to length 2 (+ longer samples) in both clause orders with every subset of omitted clauses, keyword identifiers, and the CLI normalisation function. Each string must pass a well-formedness gate built from the repo's own generated lexer/parser (0 lexer errors, 0 parser errors, all input consumed); a rejected string is reported, never silently dropped.",
+        "All select forms, every single atom (all 64 priority-range spellings, every operator/negation/quote/case form, values that mix digits and underscores), every expression shape up to 3 leaves and paren depth 2, every ^/$ date form (short incl. two-digit years on both sides of strptime's %y pivot, d/m/y relative, negative, ranges) on 7 frozen calendar-edge days resolved by hand-written month arithmetic, every relative date spec compiled on two different frozen days in ONE process (nothing resolved against an earlier today may be carried over), all order/group lists up to length 2 (+ longer samples) in both clause orders with every subset of omitted clauses, keyword identifiers, and the CLI normalisation function. Each string must pass a well-formedness gate built from the repo's own generated lexer/parser (0 lexer errors, 0 parser errors, all input consumed); a rejected string is reported, never silently dropped.",
         "Identifiers from the documented alphabet minus reserved tokens and 6-digit date-shaped words; file globs compared in stored form.",
         "§4 C04",
     ),
     "C05": (
         "model_checking",
         "explicit-state exploration of create/reindex histories over an exhaustive family of initial directories, every transition executed by the real CLI",
-        "For every ZID-less item variant (kind x priority x long date x spacing x tail, plus bodies whose first word looks like a prefix: P1, P15, o, x; leap-day dates and ZIDs) and every ordered pair of a 12-item alphabet in 8 layouts (incl. same-named pages in sub-directories and a page opening with an H2), with and without a pre-existing next_ids.json at carry points, histories over {create, reindex} (with and without the day advancing) are run through the real CLI in fresh processes; in every state: every note has a ZID, the raw index equals the recompiled files field by field (page, line, section path, block, ZID, kind, priority, body, dates, tags, links, properties), each file equals the original except for predicted first lines of formerly ZID-less items, file_hash.json lists exactly the pages with their current SHA-256, and later runs change nothing.",
+        "For every ZID-less item variant (kind x priority x long date x spacing x tail, plus bodies whose first word looks like a prefix: P1, P15, o, x; leap-day dates and ZIDs) and every ordered pair of a 12-item alphabet in 8 layouts (incl. same-named pages in sub-directories and a page opening with an H2), with and without a pre-existing next_ids.json at carry points, histories over {create, reindex, reindex of one explicit page as the very first command} (with and without the day advancing), pages with Windows line endings, items whose first line holds nothing or only a date after the prefix, a written ZID that a fresh allocator would hand out again are run through the real CLI in fresh processes; in every state: every note has a ZID, the raw index equals the recompiled files field by field (page, line, section path, block, ZID, kind, priority, body, dates, tags, links, properties), each file equals the original except for predicted first lines of formerly ZID-less items, file_hash.json lists exactly the pages with their current SHA-256, and later runs change nothing.",
         "ZID-less items with a hand-written modify date are excluded; trusts M3 (sqlite3 reader) and the line-prediction model.",
         "§4 C05",
     ),
@@ -74,7 +74,7 @@ CHECKS = {
     "C10": (
         "exploration",
         "exhaustive enumeration of (source layout x moved note x ZID mentions x destination shape x marker) through the real CLI on real indexed directories, judged by a line-algebra model and recompilation",
-        "Moved note in 4 forms (incl. one carrying a modify date) x 6 positions x 4 ZID-mention patterns x 3 own-tag patterns x 14 destination shapes (incl. no trailing newline, template-created, ending in a section header, the source page itself, an existing page whose name also matches a template pattern) x 3 markers (quick: every value of every dimension in rotation; thorough: the full product of 11,232 moves); each case indexes a real directory with db create and runs `zorg note move` in a fresh process. Source must equal the original minus exactly the note's lines; destination must preserve every old line in order with the note inserted once, contiguously; both pages are recompiled: same set of notes, requested kind, body = old body plus inserted metadata words, tags/properties superset, every other note unchanged. A second family moves notes that were written WITHOUT a ZID (dated/undated, single/multi-line) straight after db create gave them one.",
+        "Moved note in 5 forms (incl. one carrying a modify date and one ending in a blank-only line) x 8 positions (incl. a comment or a section header right below it) x 7 ZID-mention patterns (incl. in its own body, at the start of an earlier note's bullet, a longer ZID that begins with it) x 4 own-tag / own-property patterns x 15 destination shapes (incl. Windows line endings) (incl. no trailing newline, template-created, ending in a section header, the source page itself, an existing page whose name also matches a template pattern) x 3 markers (quick: every value of every dimension in rotation; thorough: the full product); each case indexes a real directory with db create and runs `zorg note move` in a fresh process. Source must equal the original minus exactly the note's lines; destination must preserve every old line in order with the note inserted once, contiguously; both pages are recompiled: same set of notes, requested kind, body = old body plus inserted metadata words, tags/properties superset, every other note unchanged. A second family moves notes that were written WITHOUT a ZID (dated/undated, single/multi-line) straight after db create gave them one.",
         "Moving into a page that does not exist and has no template must fail without touching the source; inherited links are not required to be carried (the statement names tags and properties).",
         "§4 C10",
     ),
@@ -102,14 +102,14 @@ CHECKS = {
     "C14": (
         "exploration",
         "exhaustive small-scope enumeration of (rename pair x subsets of confusable link texts) through the real CLI, byte-compared with an independent link-token rewrite",
-        "9 renames (plain, B extends A, A extends B, in / into a sub-directory, same-named files in two directories, absolute paths, base names ending in o / z) x every subset of size <= 2 (quick) / <= 3 (thorough) of 13 link texts confusable with the page name (+ the full set), written into the renamed page, another page, a deep page, a .zot template, a .zoq page, a non-zorg file, and linking files without a final newline, with two final newlines, and with form feed / CRLF / U+2028 separators; the real `zorg file rename` runs in a fresh process; file set and every byte must equal the independent rewrite; compiled link sets must differ by exactly the substitution.",
+        "11 renames (plain, B extends A, A extends B, in / into a sub-directory, names given with / without .zo in every combination, absolute paths, base names ending in o / z) x every subset of size <= 2 (quick) / <= 3 (thorough) of 13 link texts confusable with the page name (+ the full set), written into the renamed page, another page, a deep page, a .zot template, a .zoq page, a non-zorg file, and linking files without a final newline, with two final newlines, and with form feed / CRLF / U+2028 separators; the real `zorg file rename` runs in a fresh process; file set and every byte must equal the independent rewrite; compiled link sets must differ by exactly the substitution.",
         "Destination directory exists and the destination name is free (renaming onto an existing page cannot satisfy the statement either way); no directory is itself named *.zo; closed link texts only.",
         "§4 C14",
     ),
     "C15": (
         "exploration",
         "exhaustive enumeration of acyclic saved-query sets x referencing queries on a real index, judged by substitution-as-sub-expression in the set-algebra model",
-        "Every acyclic assignment of 8 reference-free and 4 referencing clause forms to three saved-query names (one of them dotted, next to decoy pages whose names are its prefixes; 1,536 sets, written with three S/O/G wrapper styles) times 12 referencing query forms is expanded by the real expand_saved_queries and executed by the real repository on an index built by db create; the selected ZIDs (or the count) must equal the model's evaluation with every reference substituted as a sub-expression; the expansion must be well-formed and reference-free; 10 queries naming a saved query that is missing (directly, at a nested level, or with only a prefix-named page present) must make expansion fail and execute raise; and, in one process, {outer}->{inner} is expanded, ONLY the inner page is rewritten (or deleted) and {outer} is expanded again: every expansion must reflect the pages as they are.",
+        "Every acyclic assignment of 8 reference-free and 4 referencing clause forms to three saved-query names (one of them dotted, next to decoy pages whose names are its prefixes; 1,536 sets, written with three S/O/G wrapper styles) times 14 referencing query forms (incl. the same reference twice, first as a whole alternative and then joined with an atom; clauses may reference two later names, so a page is reached along two paths) is expanded by the real expand_saved_queries and executed by the real repository on an index built by db create; the selected ZIDs (or the count) must equal the model's evaluation with every reference substituted as a sub-expression; the expansion must be well-formed and reference-free; 10 queries naming a saved query that is missing (directly, at a nested level, or with only a prefix-named page present) must make expansion fail and execute raise; and, in one process, {outer}->{inner} is expanded, ONLY the inner page is rewritten (or deleted) and {outer} is expanded again: every expansion must reflect the pages as they are.",
         "Acyclic sets only; one designed corpus; saved pages without a W clause are not explored.",
         "§4 C15",
     ),
